@@ -64,7 +64,7 @@ theorem quiet_setNode {s : Sys} {n : Name} {nd x : Node} (hn : s.nodes n = some 
   · exact Or.inl ⟨nd', h, rfl⟩
 
 theorem quiet_newNode {s : Sys} {d : Name} {td : TDef} (anc : List Name) (ht : s.tasks d = some td) :
-    Quiet s (setNode s d (mkNode td anc)) := by
+    Quiet s (setNode s d (mkNodeI s₀ d₀ td anc)) := by
   refine ⟨rfl, rfl, ⟨[], rfl, by simp⟩, ?_, rfl⟩
   intro k nd' h
   simp only [setNode] at h
@@ -100,8 +100,8 @@ theorem quiet_genStep {s : Sys} {n : Name} {nd : Node} (hn : s.nodes n = some nd
     | some td =>
       simp only []
       have hnd : n ≠ d := by intro e; subst e; rw [hn] at hd; cases hd
-      have q1 : Quiet s (setNode s d (mkNode td (nd.anc ++ [d]))) := quiet_newNode _ ht
-      have hn' : (setNode s d (mkNode td (nd.anc ++ [d]))).nodes n = some nd := by
+      have q1 : Quiet s (setNode s d (mkNodeI s d td (nd.anc ++ [d]))) := quiet_newNode _ ht
+      have hn' : (setNode s d (mkNodeI s d td (nd.anc ++ [d]))).nodes n = some nd := by
         simp [setNode, hnd, hn]
       have q2 := quiet_setNode (x := { nd with pc := pc' }) hn' rfl
       exact (q1.trans q2).then_eq rfl rfl rfl rfl rfl
